@@ -13,11 +13,12 @@ import FsModel.GuardDriver
 import FsModel.ParseDriver
 import FsModel.WalkDriver
 import FsModel.ConfineDriver
+import FsModel.BulkDriver
 
 open Fs
 
 def handlers : List (String → List String → Option String) :=
-  [ PathDriver.handle, RefDriver.handle, FileDriver.handle, CopyDriver.handle, ArchiveDriver.handle, RouteDriver.handle, FaultDriver.handle, GuardDriver.handle, ParseDriver.handle, WalkDriver.handle, ConfineDriver.handle ]
+  [ PathDriver.handle, RefDriver.handle, FileDriver.handle, CopyDriver.handle, ArchiveDriver.handle, RouteDriver.handle, FaultDriver.handle, GuardDriver.handle, ParseDriver.handle, WalkDriver.handle, ConfineDriver.handle, BulkDriver.handle ]
 
 def dispatch (line : String) : String :=
   match (line.trimAscii.toString.splitOn " ").filter (· ≠ "") with
